@@ -16,6 +16,8 @@ focus = [
     "iclaims.go and evidence.go (encode/decode entry points)",
     "the small helper functions isCBORMap (iclaims.go: its loop over tag heads), checkPublicKey and knownAlgorithm (evidence.go) -- one change in each of the three",
     "the small helper functions isCBORMap (iclaims.go: its loop over tag heads), checkPublicKey (evidence.go) and DecodeClaimsFromCBOR (iclaims.go) -- one change in each of the three; for isCBORMap prefer restructuring the loop (loop condition vs break, computing the head length with a switch or a table instead of a shift, an index variable instead of re-slicing)",
+    "the reflection walks of encoding/cbor.go: doSerializeStructToCBOR and doPopulateStructFromCBOR -- restructure how the tag is taken apart and how the options are scanned (index loop instead of range, a small loop-free helper, early continue vs nested if, strings.Split results held in differently named locals), and how the embedded members are collected and walked; one change in the serialising walk, one in the populating walk, one touching both in the same way",
+    "the reflection walks of encoding/json.go and encoding/embedded.go: doSerializeStructToJSON, doPopulateStructFromJSON, doGetProfileJSONTag and collectEmbedded -- restructure conditions (guard clauses, De Morgan, switch instead of if-chains), the option scan, the order of independent statements, the way the found profile field is remembered in doGetProfileJSONTag (index or copy instead of pointer, a flag instead of a nil test); one change in each of three different functions",
 ][k]
 props = [json.loads(l) for l in open('/verif/properties.jsonl')]
 ptxt = "\n".join(f"  {p['id']}: {p['title']} -- {p['statement']}" for p in props)
